@@ -48,12 +48,24 @@ theorem splitFold_spec (reg : StrRegistry) (ms : List Ty) (hno : ∀ m ∈ ms, m
     cases h1 : isStrT reg m <;> cases h2 : isOth reg m <;>
       cases m <;> simp_all [isStrT, isOth, objF, listE, dictE, List.filter_cons, List.filterMap_cons]
 
-/-- the category split of opt-free members -/
-theorem splitMembers_spec (reg : StrRegistry) (ms : List Ty) (hno : ∀ m ∈ ms, m.isOpt = false) :
+/-- the category split of opt-free members that are not unions themselves (a member `.union _` is spliced by the
+    worklist, so the filters would then have to run over the flattened list) -/
+theorem splitMembers_spec (reg : StrRegistry) (ms : List Ty) (hno : ∀ m ∈ ms, m.isOpt = false)
+    (hnu : ∀ m ∈ ms, m.isUnion = false) :
     splitMembers reg ms =
       { strTypes := ms.filter (isStrT reg), toMerge := ms.filterMap objF, lists := ms.filterMap listE,
         dicts := ms.filterMap dictE, other := ms.filter (isOth reg) } := by
-  rw [splitMembers_eq, splitFold_spec reg ms hno]
+  rw [splitMembers_plain reg (fun m hm => not_hidden_of_flags (hno m hm) (hnu m hm)), splitFold_spec reg ms hno]
+  simp
+
+/-- the general form: the filters run over the flattened member list (`SplitW.flatL`), after the `Null`s left by
+    optional members are accounted for; here for lists without optional members at all -/
+theorem splitMembers_spec_flat (reg : StrRegistry) (ms : List Ty) (hno : ∀ m ∈ SplitW.flatL ms, m.isOpt = false) :
+    splitMembers reg ms =
+      { strTypes := (SplitW.flatL ms).filter (isStrT reg), toMerge := (SplitW.flatL ms).filterMap objF,
+        lists := (SplitW.flatL ms).filterMap listE, dicts := (SplitW.flatL ms).filterMap dictE,
+        other := (SplitW.flatL ms).filter (isOth reg) } := by
+  rw [splitMembers_flat, splitFold_spec reg _ hno]
   simp
 
 theorem mem_filterMap_objF {ms : List Ty} {fs : Fields} : fs ∈ ms.filterMap objF ↔ Ty.obj fs ∈ ms := by
